@@ -122,17 +122,10 @@ theorem specOk_of_mem {t : Str} {f : Field} (h : f ∈ fieldsOf t) : specOk f.sp
   obtain ⟨p, hp, hf⟩ := List.mem_filterMap.1 h
   exact specOk_of_parseFuel _ t p f hp hf
 
-/-- the decidable guard of `C05.colored_eq_str_format_partial`: every field name of the template and of
-its format specs is empty, all digits, or has a non-empty non-numeric first component -/
-def simpleHeads (t : Str) : Bool :=
-  (fieldsOf t).all (fun f => simpleHead f.name && (fieldsOf f.spec).all (fun g => simpleHead g.name))
-
-theorem simpleHeadsOk_of_simpleHeads {t : Str} (h : simpleHeads t = true) : simpleHeadsOk t = true := by
-  simp only [simpleHeads, List.all_eq_true, Bool.and_eq_true] at h
-  simp only [simpleHeadsOk, List.all_eq_true, Bool.and_eq_true]
+/-- the parser invariant the simulation needs holds for every template -/
+theorem specsOk_all (t : Str) : specsOk t = true := by
+  simp only [specsOk, List.all_eq_true, Bool.and_eq_true]
   intro f hf
-  refine ⟨⟨(h f hf).1, specOk_of_mem hf⟩, ?_⟩
-  intro g hg
-  exact ⟨(h f hf).2 g hg, specOk_of_mem hg⟩
+  exact ⟨specOk_of_mem hf, fun g hg => specOk_of_mem hg⟩
 
 end Format
